@@ -18,6 +18,7 @@ import (
 	"github.com/saucelabs/forwarder"
 	"github.com/saucelabs/forwarder/ruleset"
 	"github.com/saucelabs/forwarder/verifharness/lib"
+	"github.com/saucelabs/forwarder/verifharness/wiring"
 )
 
 type conf struct {
@@ -533,6 +534,7 @@ func main() {
 	run.Floor("refused_403_denied", 20)
 	run.Floor("refused_451", 20)
 	run.Floor("inner_mitm_requests", 25)
+	wiring.Run(run, "C04")
 	run.Finish()
 }
 
